@@ -333,6 +333,14 @@ def rule_h3b(col, prog, crate, R, gens):
                         cb = crate.by_key.get(a[1][1])
                         if cb is not None:
                             cands.append(cb)
+                    if isinstance(a, tuple) and a and a[0] == "fnitem":
+                        # a named function passed as the callback (`RNG.with(draw)`)
+                        for x in a[1:]:
+                            cb = crate.by_key.get(x) if isinstance(x, str) else None
+                            if cb is None and isinstance(x, str):
+                                cb = crate.body(x)
+                            if cb is not None and cb.key != b.key:
+                                cands.append(cb)
                 vals = [fn_bits(c, depth + 1) for c in cands]
                 vals = [v for v in vals if v is not None]
                 if vals:
